@@ -725,6 +725,39 @@ def r19g(ctx):
         raise AnalysisError("R19g: no Table method hands a coordinate parameter to a row")
 
 
+def r19h(ctx):
+    """A short tuple means rows to a method that walks rows, columns to one that walks columns.
+
+    The table and the column translators return the same four numbers for every string form and every 4-tuple, and opposite ones for a
+    1- or 2-item tuple: `(1, 3)` is rows 2..4 for the table translator and columns B..D for the column translator.  "The equivalent tuple
+    addresses the same cells in every method that takes coordinates" therefore needs each method to use the translator of what it walks:
+    a method that uses the row components (2nd / 4th) of the result resolves its coordinate with `_translate_table_coordinates`, a method
+    that uses the column components only with `_translate_column_coordinates`.
+    """
+    repo = ctx.repo
+    ctx.rule("R19h", "Table methods resolve an area with the translator of the axis they walk (row components used ⇒ table translator; columns only ⇒ column translator)", floor=5)
+    t = repo.cls("Table")
+    for name, fs in sorted(t.methods.items()):
+        f = fs[0]
+        for a in walk_no_nested(f.node):
+            if not (isinstance(a, ast.Assign) and isinstance(a.targets[0], ast.Tuple) and len(a.targets[0].elts) == 4 and isinstance(a.value, ast.Call)
+                    and call_name(a.value) in ("_translate_table_coordinates", "_translate_column_coordinates")):
+                continue
+            comps = [e.id if isinstance(e, ast.Name) else None for e in a.targets[0].elts]
+            loads = {x.id for x in walk_no_nested(f.node) if isinstance(x, ast.Name) and isinstance(x.ctx, ast.Load)}
+            rows_used = any(c in loads for c in (comps[1], comps[3]) if c)
+            cols_used = any(c in loads for c in (comps[0], comps[2]) if c)
+            want = "_translate_table_coordinates" if rows_used else "_translate_column_coordinates" if cols_used else None
+            got = call_name(a.value)
+            ok = want is None or got == want
+            ctx.instance("R19h", f"{f.file}:{f.ident}", f"{got}: row components {'used' if rows_used else 'unused'}, column components {'used' if cols_used else 'unused'}", ok=ok,
+                         nontrivial=True, line=a.lineno)
+            if not ok:
+                ctx.report("R19h", f, a, norm(a, 70),
+                           f"Table.{name} uses the {'row' if rows_used else 'column'} components of the area but resolves it with {got}: a 1- or 2-item tuple such as (1, 3) is read as "
+                           f"{'columns' if rows_used else 'rows'} here and as {'rows' if rows_used else 'columns'} by the sibling methods, so the same tuple addresses different cells")
+
+
 def run(ctx):
     r19a(ctx)
     r19b(ctx)
@@ -733,6 +766,7 @@ def run(ctx):
     r19e(ctx)
     r19f(ctx)
     r19g(ctx)
+    r19h(ctx)
     # "a range bounds the result on both sides": the expanding traversals decide which columns/cells a range returns (rule shared with C08)
     from .c08 import r08c
     r08c(ctx)
@@ -743,6 +777,9 @@ from ..selftest import Seed, unparse_seed  # noqa: E402
 _T = "src/odfdo/table.py"
 _R = "src/odfdo/row.py"
 SEEDS = [
+    Seed("iter_values resolves its area with the column translator", "fault", _T,
+         "            x, y, z, t = self._translate_table_coordinates(coord)\n        else:\n            x = y = z = t = None\n        for row in self.traverse(start=y, end=t):\n            if z is None:\n                width = self.width",
+         "            x, y, z, t = self._translate_column_coordinates(coord)\n        else:\n            x = y = z = t = None\n        for row in self.traverse(start=y, end=t):\n            if z is None:\n                width = self.width", "R19h"),
     Seed("get_column_cells hands the raw x to each row", "fault", _T,
          "        x = self._translate_x_from_any(x)\n        if cell_type:\n            cell_type = cell_type.lower().strip()\n        cells: list[Cell | None] = []",
          "        if cell_type:\n            cell_type = cell_type.lower().strip()\n        cells: list[Cell | None] = []", "R19g"),
